@@ -470,9 +470,21 @@ struct Hist
     mark(std::string("quiesce:") + label);
     absorb();
   }
-  void waitWire(uint64_t target, double ms, const char *label)
+  // Wait for the datagrams of the sends just made. A send is allowed to produce nothing (at most one
+  // datagram), e.g. when the kernel refuses it and the engine closes the session (ENOBUFS for a fragmented
+  // IPv6 datagram with a 4608-byte SO_SNDBUF, EMSGSIZE, write back-pressure): once one of the sending
+  // sessions is closed only a short grace period is left for what was sent before the close.
+  void waitWire(uint64_t target, double ms, const char *label, const std::vector<uint64_t> &sids = {})
   {
-    if (!W.waitFor(ms * waitScale, [&] { return W.nWire >= target; })) feat["wire_wait_timed_out"]++;
+    bool done = W.waitFor(ms * waitScale, [&] {
+      if (W.nWire >= target) return true;
+      for (auto sid : sids) if (W.cbClosed.count(sid)) return true;
+      return false;
+    });
+    bool all = W.waitFor(done ? 100 : 0, [&] { return W.nWire >= target; });
+    if (!all) feat[done ? "wire_wait_cut_short_by_session_close" : "wire_wait_timed_out"]++;
+    if (!all && verbose) fprintf(stderr, "-- wire wait %s: history %llu step %s limit %.0f ms, %llu of %llu datagrams seen\n", done ? "cut short by a session close" : "timed out",
+                                 (unsigned long long)idx, label, ms, (unsigned long long)wireCount(), (unsigned long long)target);
     mark(std::string("quiesce:") + label);
     absorb();
   }
@@ -536,7 +548,7 @@ struct Hist
     for (auto &pr : prs) fire(pr);
     feat[closedTarget ? "step_send_on_closed_or_unknown_session" : "step_send"]++;
     if (closedTarget) { vf::sleepMs(3); mark("quiesce:send-closed"); absorb(); }
-    else waitWire(before + uint64_t(n), (smallQueue && eagain) ? 300 : 5000, "send");
+    else waitWire(before + uint64_t(n), (smallQueue && eagain) ? 300 : 5000, "send", {sid});
     c06::eg().disarm();
   }
   // several destinations queued behind EAGAIN at once
@@ -558,7 +570,7 @@ struct Hist
     c06::eg().arm(int(prs.size()) + int(r.range(0, 6)));
     for (auto &pr : prs) fire(pr);
     feat["step_eagain_multi_destination"]++;
-    waitWire(before + prs.size(), smallQueue ? 300 : 5000, "eagain-multi");
+    waitWire(before + prs.size(), smallQueue ? 300 : 5000, "eagain-multi", chosen);
     c06::eg().disarm();
   }
   uint64_t waitOpened(uint64_t sid)
@@ -689,7 +701,10 @@ struct Hist
     helper.join();
     feat["step_burst_both_ways"]++;
     if (!W.waitFor(watchdogMs() * waitScale, [&] { return W.nData >= dBefore + uint64_t(np); })) noteDeliveryTimeout();
-    waitWire(wBefore + mine.size() + theirs.size(), smallQueue ? 300 : 5000, "burst");
+    std::vector<uint64_t> bsids;
+    for (auto &pr : mine) bsids.push_back(pr.sid);
+    for (auto &pr : theirs) bsids.push_back(pr.sid);
+    waitWire(wBefore + mine.size() + theirs.size(), smallQueue ? 300 : 5000, "burst", bsids);
     c06::eg().disarm();
   }
   // the history shape the property singles out: a peer with a receiving session, another session to the
@@ -707,7 +722,7 @@ struct Hist
     case 2: other = stepVia(p, int(r.below(L.size()))); break; // maybe the other listener
     default: other = stepConnect(p); break;                    // a connected socket to the same peer
     }
-    if (other && r.chance(0.5)) { auto pr = prepSend(other, pickLen()); uint64_t wb = wireCount(); fire(pr); waitWire(wb + 1, 5000, "send"); }
+    if (other && r.chance(0.5)) { auto pr = prepSend(other, pickLen()); uint64_t wb = wireCount(); fire(pr); waitWire(wb + 1, 5000, "send", {other}); }
     if (r.chance(0.3)) stepPeerSend(p, l, 1);
     if (other)
     {
@@ -776,7 +791,7 @@ struct Hist
       uint64_t s1 = 0;
       if (variant == 5) { s1 = stepVia(p, l); stepPeerSend(p, l, 1); } else stepPeerSend(p, l, 1);
       uint64_t s2 = stepVia(p, l);
-      if (r.chance(0.5)) { auto pr = prepSend(s2, pickLen()); uint64_t wb = wireCount(); fire(pr); waitWire(wb + 1, 5000, "send"); }
+      if (r.chance(0.5)) { auto pr = prepSend(s2, pickLen()); uint64_t wb = wireCount(); fire(pr); waitWire(wb + 1, 5000, "send", {s2}); }
       if (!waitClosedKeeping(s2, keepRecv, 20000)) feat["idle_victim_never_expired"]++;
       absorb();
       stepPeerSend(p, l, int(r.range(1, 3)));
@@ -797,7 +812,7 @@ struct Hist
       stepPeerSend(p, l, 1);
       uint64_t s1 = 0; for (auto &kv : S) if (kv.second.kind == 'A') s1 = kv.first;
       uint64_t s2 = stepVia(p, l);
-      auto keepSend = [&] { auto pr = prepSend(s2, uint32_t(16 + r.below(200))); uint64_t wb = wireCount(); fire(pr); waitWire(wb + 1, 5000, "send"); };
+      auto keepSend = [&] { auto pr = prepSend(s2, uint32_t(16 + r.below(200))); uint64_t wb = wireCount(); fire(pr); waitWire(wb + 1, 5000, "send", {s2}); };
       if (!s1 || !waitClosedKeeping(s1, keepSend, 20000)) feat["idle_victim_never_expired"]++;
       absorb();
       stepPeerSend(p, l, 2); // a new accept is legitimate here
